@@ -199,7 +199,24 @@ def coq_make(targets=None, timeout=3000):
 
 
 def coqc_file(path, timeout=600):
-    rc, out, err = sh(["coqc", "-noglob", "-Q", COQ, "Chalk", path], timeout=timeout, cwd=os.path.dirname(path))
+    """Compile a generated .v file against the Chalk library.  If a required module has not been
+    compiled yet (fresh checkout: only the property theories' own dependencies are built by the
+    proof stage) or is stale, build it with make and retry."""
+    for _ in range(6):
+        rc, out, err = sh(["coqc", "-noglob", "-Q", COQ, "Chalk", path], timeout=timeout, cwd=os.path.dirname(path))
+        if rc == 0:
+            return rc, out, err
+        m = re.search(r"Cannot find a physical path bound to logical path\s+([\w.]+) with prefix Chalk", out + err)
+        m2 = re.search(r"Compiled library Chalk\.([\w.]+) \(in file [^)]*\) makes inconsistent assumptions", out + err)
+        m3 = re.search(r"Unable to locate library ([\w.]+)", out + err)
+        mod = (m.group(1) if m else None) or (m2.group(1) if m2 else None) or (m3.group(1) if m3 else None)
+        if not mod:
+            return rc, out, err
+        if mod.startswith("Chalk."):
+            mod = mod[len("Chalk."):]
+        rc2, out2, _ = coq_make([mod.replace(".", "/") + ".vo"])
+        if rc2 != 0:
+            return rc, out, err + "\n[make %s failed]\n%s" % (mod, out2[-1500:])
     return rc, out, err
 
 
